@@ -56,6 +56,37 @@ def modelChain (topic : Bytes) (delta : Nat) (a b c : OpInst) : Option String :=
         let sc := if sb == "hang" then "hang" else showOutcome rc
         some s!"{showOutcome ra} {sb} {sc}"
 
+/-- n operations in a row on one Conn -/
+def modelSeq (topic : Bytes) (xs : List OpInst) : Option String :=
+  let stream := (xs.zipIdx.map fun (x, i) => frame (i + 1) x.body).foldl (· ++ ·) []
+  let rec go (xs : List OpInst) (cl : Conn × Bool) (hung : Bool) (acc : List String) : Option (List String) :=
+    match xs with
+    | [] => some acc.reverse
+    | x :: r =>
+      if hung then go r cl true ("hang" :: acc)
+      else match runInstL false topic x cl with
+        | none => none
+        | some (o, cl') => go r cl' (showOutcome o == "hang") (showOutcome o :: acc)
+  (go xs (⟨stream, 1, false⟩, false) false []).map (" ".intercalate ·)
+
+/-- results in order: as long as nothing failed each result is acceptable for its own frame (`specJudge`) — a frame
+that is not an encoding must fail or report a broker error; once an operation failed every later one fails; nobody
+hangs -/
+def monitorSeq (xs : List OpInst) (impl : String) : Bool :=
+  let rs := words impl
+  let rec go (xs : List OpInst) (rs : List String) (dead : Bool) : Bool :=
+    match xs, rs with
+    | [], [] => true
+    | x :: xr, r :: rr =>
+      if dead then isFailStr r && go xr rr true
+      else
+        let okHere := match specJudge x r with
+          | some ok => ok && isDone r
+          | none => isFailStr r || r.startsWith "kafka:"
+        okHere && go xr rr (isFailStr r)
+    | _, _ => false
+  go xs rs false
+
 /-- two requests in flight (both written before any response), the two frames arrive back to back -/
 def modelPipe (topic : Bytes) (idA : Nat) (a b : OpInst) : Option String :=
   match runInstL true topic a (⟨frame idA a.body ++ frame (idA + 1) b.body, idA, false⟩, false) with
@@ -110,6 +141,21 @@ def step (line : String) : String :=
         | some m => s!"model={m} holds={if monitorChain impl then 1 else 0}"
         | none => "bad-op"
       | _, _, _, _, _ => "bad-args"
+    | "c11n" :: t :: ns :: rest =>
+      let rec insts (l : List String) : Option (List OpInst) :=
+        match l with
+        | [] => some []
+        | sa :: ha :: r => match parseInst sa ha, insts r with
+          | some a, some as => some (a :: as)
+          | _, _ => none
+        | _ => none
+      match ofHex t, ns.toNat?, insts rest with
+      | some topic, some n, some xs =>
+        if xs.length != n then "bad-args" else
+        match modelSeq topic xs with
+        | some m => s!"model={m} holds={if monitorSeq xs impl then 1 else 0}"
+        | none => "bad-op"
+      | _, _, _ => "bad-args"
     | ["c11p", t, ia, sa, ha, sb, hb] =>
       match ofHex t, ia.toNat?, parseInst sa ha, parseInst sb hb with
       | some topic, some idA, some a, some b =>
